@@ -19,9 +19,11 @@ theorem IsReservedWord_eq (cfg : Cfg) (a : Str) : Gen.Src.IsReservedWord cfg a =
 theorem isLocal_eq (cfg : Cfg) (f : FileS) (p : Str) : Gen.Src.isLocal cfg f p = isLocal f p := by
   simp [Gen.Src.isLocal, isLocal]
 
+/-- (proof by exhaustive case analysis on the three conditions: any Boolean rearrangement of the
+    Go condition — De Morgan, reordered tests, early return of the other branch — still checks) -/
 theorem prefixed_eq (cfg : Cfg) (f : FileS) (n : Str) (a : Bool) : Gen.Src.prefixed cfg f n a = prefixed f n a := by
   unfold Gen.Src.prefixed prefixed
-  cases a <;> simp [List.append_assoc]
+  by_cases h1 : f.pfx = [] <;> by_cases h2 : n = b!"." <;> cases a <;> simp [h1, h2, List.append_assoc]
 
 theorem isValidAlias_eq (tl : Str → Str) (ip : Nat → Bool) (f : FileS) (a : Str) :
     Gen.Src.isValidAlias (cfgOf tl ip) f a = isValidAlias (cfgOf tl ip) f a := by
@@ -45,7 +47,7 @@ theorem isDotImport_eq (cfg : Cfg) (f : FileS) (p : Str) : Gen.Src.isDotImport c
   by_cases h1 : p = b!"C"
   · simp [h1]
   · simp only [h1, beq_iff_eq, if_false]
-    cases hh : AList.lookup f.hints p <;> simp
+    cases hh : AList.lookup f.hints p <;> cases hi : AList.lookup f.imports p <;> simp [Bool.and_comm]
 
 theorem Anon_eq (cfg : Cfg) (f : FileS) (ps : List Str) : Gen.Src.Anon cfg f ps = ps.foldl anon f := by
   rfl
